@@ -31,7 +31,11 @@ RULE = ('measure cases = two-qubit density matrices: random of rank 1..4, rank-d
         '(model class, state, rank, ensemble size rank..8, Stiefel method, parameter vector): random parameters of scale '
         '0.1/1/10 and every iterate of L-BFGS runs. A measure case is non-trivial when the state is neither maximally mixed nor '
         'diagonal (largest off-diagonal modulus > 1e-6); a model case is non-trivial when moreover the state is entangled or '
-        'the ensemble has more members than the rank. Distinct by digest of (kind, matrix bytes[, model configuration, theta]).')
+        'the ensemble has more members than the rank. Distinct by digest of (kind, matrix bytes[, model configuration, theta]). '
+        'Inputs come as complex128 and as float64 arrays (real states: A A^T/tr, real pure states, real separable mixtures), '
+        'C-contiguous, Fortran-ordered and as strided views; the functions are called in a different order for every state; '
+        'work-buffer histories refill / update ONE array in place between evaluations (and refill the array handed to '
+        'set_density_matrix); model objects are re-used across states and a few configurations are replayed in reversed order.')
 EXHAUSTIVE = {'quick': False, 'thorough': False}
 EXHAUSTIVE_DOMAINS = {'quick': [], 'thorough': []}
 ASSUMPTIONS = [
@@ -57,7 +61,9 @@ DECIDING = ['get_concurrence_2qubit', 'get_eof_2qubit', 'get_gme_2qubit', 'get_c
             'relation/eof-formula', 'relation/gme-formula', 'relation/local-unitary', 'relation/pure-state', 'relation/pt-sign',
             'model/eof/forward', 'model/concurrence/forward', 'model/gme/forward', 'model/linear_entropy/forward',
             'model/eof/bound', 'model/concurrence/bound', 'model/gme/bound', 'model/linear_entropy/bound',
-            'model/eof/lbfgs-iterate', 'model/concurrence/lbfgs-iterate', 'model/gme/lbfgs-iterate', 'model/linear_entropy/lbfgs-iterate']
+            'model/eof/lbfgs-iterate', 'model/concurrence/lbfgs-iterate', 'model/gme/lbfgs-iterate', 'model/linear_entropy/lbfgs-iterate',
+            'argument-unchanged', 'history/work-buffer', 'relation/layout', 'input/float64', 'input/complex128/not-c-contiguous',
+            'model/argument-buffer-refilled-after-set', 'model/replayed-in-other-order', 'model/reused-object']
 
 TOL_C = 1e-6        # concurrence-type values (sqrt of eigenvalues)
 C_ERR = 4e-8        # accuracy of a concurrence computed through square roots of eigenvalues that vanish to ~1e-16
@@ -122,7 +128,24 @@ def install(ctx, numqi):
     rng = ctx.rng
     worst = ctx.extra.setdefault('worst', {})
     ghost = {}   # id(model) -> (model, rho)
-    flags = {'lbfgs': False}
+    flags = {'lbfgs': False, 'no_reinvoke': False}
+
+    def snapshot(index, argname):
+        def pre(c):
+            return np.array(to_numpy(c.arg(index, argname)), copy=True)
+        return pre
+
+    def unchanged(c, name, index, argname):
+        """the array argument must come back unmodified; returns the snapshot taken at call time (the contract is judged on it)"""
+        now = to_numpy(c.arg(index, argname))
+        snap = c.snap
+        if snap is None:
+            return now
+        same = now.shape == snap.shape and now.dtype == snap.dtype and bool(np.array_equal(now, snap, equal_nan=True))
+        ctx.check(same, f'{name}/mutates-argument', f'{name} modified its array argument in place',
+                  lambda: {'dtype': str(snap.dtype), 'c_contiguous': bool(now.flags.c_contiguous), 'before': snap, 'after': now},
+                  point='argument-unchanged')
+        return snap
 
     def up(name, v, mode='max'):
         v = float(v)
@@ -149,7 +172,7 @@ def install(ctx, numqi):
         """finite + range; returns (rho, value, c_ref) or None."""
         if c.exc is not None:
             return None
-        rho = to_numpy(c.args[0] if c.args else c.kwargs.get('rho'))
+        rho = unchanged(c, name, 0, 'rho')
         if not is_state(rho, 4):
             ctx.hit('not-a-state/' + name)
             return None
@@ -166,6 +189,8 @@ def install(ctx, numqi):
         return rho, v, c_ref
 
     def lu_check(c, name, rho, v, tol, c_ref):
+        if flags['no_reinvoke']:  # history workloads: the monitor must not call the library between two calls of the history
+            return
         r2 = local_rotation(rho)
         with warnings.catch_warnings():
             warnings.simplefilter('ignore')
@@ -201,6 +226,8 @@ def install(ctx, numqi):
         pure_check(rho, v, 'concurrence')
 
     def pure_check(rho, v, what):
+        if flags['no_reinvoke']:
+            return
         ev, evc = np.linalg.eigh(T2.herm(rho))
         if ev[-1] < 1 - 1e-12:
             return
@@ -227,9 +254,11 @@ def install(ctx, numqi):
                   lambda: {'mixed_state_function': v, 'pure_state_function': repr(lib), 'reference': ref, 'psi': psi},
                   point='relation/pure-state')
 
-    ctx.attach(E.eof, 'get_concurrence_2qubit', post=post_concurrence, point='get_concurrence_2qubit')
+    ctx.attach(E.eof, 'get_concurrence_2qubit', pre=snapshot(0, 'rho'), post=post_concurrence, point='get_concurrence_2qubit')
 
     def numqi_concurrence(rho):
+        if flags['no_reinvoke']:
+            return None
         with warnings.catch_warnings():
             warnings.simplefilter('ignore')
             return scalar(E.get_concurrence_2qubit(rho))
@@ -239,7 +268,7 @@ def install(ctx, numqi):
         if got is None:
             return
         rho, v, c_ref = got
-        cn = numqi_concurrence(rho)
+        cn = numqi_concurrence(c.snap if c.snap is not None else rho)  # same values AND dtype as the observed call
         if cn is not None and math.isfinite(cn):
             ctx.check(abs(v - T2.eof_of_concurrence(cn)) <= 1e-9, 'get_eof_2qubit/formula-mismatch',
                       'EOF is not h((1+sqrt(1-C^2))/2) of the concurrence returned for the same state',
@@ -251,14 +280,14 @@ def install(ctx, numqi):
         lu_check(c, 'get_eof_2qubit', rho, v, TOL_C, c_ref)
         pure_check(rho, v, 'eof')
 
-    ctx.attach(E.eof, 'get_eof_2qubit', post=post_eof, point='get_eof_2qubit')
+    ctx.attach(E.eof, 'get_eof_2qubit', pre=snapshot(0, 'rho'), post=post_eof, point='get_eof_2qubit')
 
     def post_gme(c):
         got = common(c, 'get_gme_2qubit', 0.5)
         if got is None:
             return
         rho, v, c_ref = got
-        cn = numqi_concurrence(rho)
+        cn = numqi_concurrence(c.snap if c.snap is not None else rho)  # same values AND dtype as the observed call
         if cn is not None and math.isfinite(cn) and cn <= 1:
             ctx.check(abs(v - T2.gme_of_concurrence(cn)) <= 1e-9, 'get_gme_2qubit/formula-mismatch',
                       'GME is not (1-sqrt(1-C^2))/2 of the concurrence returned for the same state',
@@ -274,12 +303,12 @@ def install(ctx, numqi):
                   lambda: {'got': v, 'reference': ref, 'tol': tol, 'reference_concurrence': c_ref, 'rho': rho})
         lu_check(c, 'get_gme_2qubit', rho, v, 2 * tol, c_ref)
 
-    ctx.attach(E.measure, 'get_gme_2qubit', post=post_gme, point='get_gme_2qubit')
+    ctx.attach(E.measure, 'get_gme_2qubit', pre=snapshot(0, 'rho'), post=post_gme, point='get_gme_2qubit')
 
     def post_negativity(c):
         if c.exc is not None:
             return
-        rho = to_numpy(c.arg(0, 'rho'))
+        rho = unchanged(c, 'get_negativity', 0, 'rho')
         try:
             dims = tuple(int(x) for x in c.arg(1, 'dim'))
         except Exception:
@@ -296,10 +325,10 @@ def install(ctx, numqi):
                   'negativity is not the sum of the absolute values of the negative eigenvalues of the partial transpose',
                   lambda: {'got': v, 'reference': ref, 'dims': list(dims), 'pt_eigenvalues': T2.pt_eigenvalues(rho, dims, 1), 'rho': rho})
 
-    ctx.attach(E._misc, 'get_negativity', post=post_negativity, point='get_negativity')
+    ctx.attach(E._misc, 'get_negativity', pre=snapshot(0, 'rho'), post=post_negativity, point='get_negativity')
 
-    def pure_arg(c):
-        psi = to_numpy(c.arg(0, 'psi'))
+    def pure_arg(c, name):
+        psi = unchanged(c, name, 0, 'psi')
         if psi.ndim != 2 or not np.all(np.isfinite(psi)) or abs(float(np.vdot(psi, psi).real) - 1) > 1e-10:
             return None
         return psi.astype(np.complex128)
@@ -307,7 +336,7 @@ def install(ctx, numqi):
     def post_concurrence_pure(c):
         if c.exc is not None:
             return
-        psi = pure_arg(c)
+        psi = pure_arg(c, 'get_concurrence_pure')
         if psi is None:
             return
         v = scalar(c.result)
@@ -319,12 +348,12 @@ def install(ctx, numqi):
         ctx.check(abs(v - ref) <= TOL_C, 'get_concurrence_pure/differs-from-schmidt-formula',
                   'get_concurrence_pure differs from sqrt(2(1-sum s^4)) of the Schmidt coefficients', lambda: {'got': v, 'reference': ref, 'psi': psi})
 
-    ctx.attach(E.eof, 'get_concurrence_pure', post=post_concurrence_pure, point='get_concurrence_pure')
+    ctx.attach(E.eof, 'get_concurrence_pure', pre=snapshot(0, 'psi'), post=post_concurrence_pure, point='get_concurrence_pure')
 
     def post_eof_pure(c):
         if c.exc is not None:
             return
-        psi = pure_arg(c)
+        psi = pure_arg(c, 'get_eof_pure')
         if psi is None:
             return
         eps = c.arg(1, 'eps', 1e-10)
@@ -340,7 +369,7 @@ def install(ctx, numqi):
                   'Schmidt coefficients', lambda: {'got': v, 'reference': ref, 'psi': psi})
         ctx.check(-1e-12 <= v <= math.log(min(psi.shape)) + 1e-9, 'get_eof_pure/out-of-range', 'get_eof_pure outside [0, log min(dA,dB)]', wit)
 
-    ctx.attach(E.eof, 'get_eof_pure', post=post_eof_pure, point='get_eof_pure')
+    ctx.attach(E.eof, 'get_eof_pure', pre=snapshot(0, 'psi'), post=post_eof_pure, point='get_eof_pure')
 
     # ---------------- models: ghost state + forward postcondition
     def post_set_dm(c):
@@ -348,7 +377,8 @@ def install(ctx, numqi):
         if c.exc is not None:
             ghost.pop(id(mod), None)
             return
-        rho = to_numpy(c.arg(1, 'rho')).astype(np.complex128).copy()
+        # the ghost state is the content of the argument AT CALL TIME (snapshot): a caller may refill that buffer afterwards
+        rho = unchanged(c, f'{type(mod).__name__}.set_density_matrix', 1, 'rho').astype(np.complex128).copy()
         ghost[id(mod)] = (mod, rho)
 
     def make_post_forward(kind, stiefel_attr):
@@ -424,14 +454,15 @@ def install(ctx, numqi):
 
     for cls, kind, attr in [(E.EntanglementFormationModel, 'eof', 'manifold'), (E.ConcurrenceModel, 'concurrence', 'manifold'),
                             (E.DensityMatrixGMEModel, 'gme', 'manifold_stiefel'), (E.DensityMatrixLinearEntropyModel, 'linear_entropy', 'manifold_stiefel')]:
-        ctx.attach(cls, 'set_density_matrix', post=post_set_dm, point=f'{cls.__name__}.set_density_matrix')
+        ctx.attach(cls, 'set_density_matrix', pre=snapshot(1, 'rho'), post=post_set_dm, point=f'{cls.__name__}.set_density_matrix')
         ctx.attach(cls, 'forward', post=make_post_forward(kind, attr), point=f'{cls.__name__}.forward')
     return flags
 
 
 # =============================================================================== state generators (two qubits)
-def ginibre_state(rng, d, r):
-    a = rng.normal(size=(d, r)) + 1j * rng.normal(size=(d, r))
+def ginibre_state(rng, d, r, real=False):
+    """real=True: A A^T / tr with a real A, returned as a float64 array (generic, not of X-form)"""
+    a = rng.normal(size=(d, r)) + (0 if real else 1j * rng.normal(size=(d, r)))
     rho = a @ a.conj().T
     rho = rho / np.trace(rho).real
     return (rho + rho.conj().T) / 2
@@ -465,11 +496,15 @@ def rotate(rng, rho, dims=(2, 2)):
 
 def gen_generic(rng, it):
     k = it % 8
+    real = (it // 8) % 3 == 1  # every third round in real arithmetic: float64 arrays
     if k < 4:
-        return f'random rank {k + 1}', ginibre_state(rng, 4, k + 1)
+        return f'random rank {k + 1}' + (' (real, float64)' if real else ''), ginibre_state(rng, 4, k + 1, real)
     if k == 4:
         r = int(rng.integers(2, 4))
         w = rng.dirichlet(np.ones(r))
+        if real:
+            vs = [rng.normal(size=4) for _ in range(r)]
+            return f'mixture of {r} random real pure states (float64)', sum(wi * np.outer(v, v) / np.dot(v, v) for wi, v in zip(w, vs))
         return f'mixture of {r} random pure states', sum(wi * T2.proj(rand_pure(rng, 4)) for wi in w)
     if k == 5:
         w = rng.dirichlet(np.ones(4) * rng.choice([0.3, 1.0]))
@@ -495,9 +530,16 @@ def gen_special(rng, it):
         w = np.concatenate([[0.5], w])[rng.permutation(4)]
         return 'Bell-diagonal with largest weight exactly 1/2 (separable boundary)', T2.bell_diagonal(w)
     if k == 3:
-        kind = ['random', 'few-terms', 'near-parallel', 'tiny-weights', 'basis', 'pure-product'][(it // 10) % 6]
-        return f'separable mixture ({kind})', RS.rebuild(gen_cert(rng, (2, 2), kind))
+        kind = ['random', 'random-real', 'few-terms', 'near-parallel', 'tiny-weights', 'basis', 'pure-product'][(it // 10) % 7]
+        rho = RS.rebuild(gen_cert(rng, (2, 2), kind))
+        if kind in ('random-real', 'basis'):
+            return f'separable mixture ({kind}, float64)', rho.real.copy()
+        return f'separable mixture ({kind})', rho
     if k == 4:
+        if (it // 10) % 2:
+            v = rng.normal(size=4)
+            v /= np.linalg.norm(v)
+            return 'random real pure state (float64)', np.outer(v, v)
         return 'random pure state', T2.proj(rand_pure(rng, 4))
     if k == 5:
         p = rng.uniform(0, 1)
@@ -530,25 +572,131 @@ def run(ctx, shard):
     name = shard['name']
     nsample = [0]
 
-    def measures(desc, rho, dims=(2, 2)):
-        ctx.set_case({'state': desc, 'dims': list(dims)})
+    FUNCS = {'get_concurrence_2qubit': lambda a, d: E.get_concurrence_2qubit(a), 'get_eof_2qubit': lambda a, d: E.get_eof_2qubit(a),
+             'get_gme_2qubit': lambda a, d: E.get_gme_2qubit(a), 'get_negativity': lambda a, d: E.get_negativity(a, d)}
+
+    def reference(fn, rho, dims):
+        rho = np.asarray(rho, dtype=np.complex128)
+        if fn == 'get_negativity':
+            return T2.negativity(rho, dims)
+        c = T2.concurrence(rho)
+        return {'get_concurrence_2qubit': c, 'get_eof_2qubit': T2.eof_of_concurrence(c), 'get_gme_2qubit': T2.gme_of_concurrence(c)}[fn]
+
+    def layout_variant(rho):
+        """the same VALUES in another memory layout / dtype: (argument, tag)"""
+        u = rng.random()
+        if u < 0.12:
+            return np.asfortranarray(rho), 'fortran-ordered copy'
+        if u < 0.24:
+            big = np.zeros((2 * rho.shape[0], 2 * rho.shape[1]), dtype=rho.dtype)
+            big[::2, ::2] = rho
+            return big[::2, ::2], 'non-contiguous strided view'
+        if u < 0.30 and np.iscomplexobj(rho) and not np.any(rho.imag):
+            return rho.real.copy(), 'real part as float64'
+        if u < 0.36 and not np.iscomplexobj(rho):
+            return rho.astype(np.complex128), 'real state as complex128'
+        return rho, 'as generated (' + str(rho.dtype) + ')'
+
+    def call(fn, arg, dims):
+        """one guarded call; returns the float value or None"""
+        out = [None]
+        with ctx.guard(fn):
+            out[0] = FUNCS[fn](arg, dims)
+        try:
+            return float(out[0])
+        except Exception:
+            return None
+
+    def measures(desc, rho, dims=(2, 2), layouts=True):
+        arg, tag = layout_variant(rho) if layouts else (rho, 'as generated')
+        ctx.set_case({'state': desc, 'dims': list(dims), 'layout': tag})
+        ctx.hit('input/' + ('float64' if not np.iscomplexobj(arg) else 'complex128') + ('' if arg.flags.c_contiguous else '/not-c-contiguous'))
         smp = None
         if nsample[0] < 6 and rng.random() < 0.03:
             nsample[0] += 1
             ev = np.linalg.eigvalsh(rho)
-            smp = {'state': desc, 'dims': list(dims), 'rank': int((ev > 1e-10).sum()), 'purity': float(np.vdot(rho, rho).real),
+            smp = {'state': desc, 'dims': list(dims), 'layout': tag, 'rank': int((ev > 1e-10).sum()), 'purity': float(np.vdot(rho, rho).real),
                    'reference_concurrence': T2.concurrence(rho) if dims == (2, 2) else None,
                    'reference_negativity': T2.negativity(rho, dims)}
-        ctx.case('measure', list(dims), rho, nontrivial=nontrivial(rho), sample=smp)
-        if dims == (2, 2):
-            with ctx.guard('get_concurrence_2qubit'):
-                E.get_concurrence_2qubit(rho)
-            with ctx.guard('get_eof_2qubit'):
-                E.get_eof_2qubit(rho)
-            with ctx.guard('get_gme_2qubit'):
-                E.get_gme_2qubit(rho)
-        with ctx.guard('get_negativity'):
-            E.get_negativity(rho, dims)
+        ctx.case('measure', list(dims), np.asarray(rho, dtype=np.complex128), tag, nontrivial=nontrivial(rho), sample=smp)
+        fns = list(FUNCS) if dims == (2, 2) else ['get_negativity']
+        vals = {}
+        for i in rng.permutation(len(fns)):  # call order varies from state to state
+            vals[fns[i]] = call(fns[i], arg, dims)
+        if layouts and arg is not rho and rng.random() < 0.5:
+            # the same values as a plain C-contiguous array must give the same answers
+            plain = np.ascontiguousarray(np.asarray(rho))
+            for fn in fns:
+                v2 = call(fn, plain, dims)
+                ok = (vals[fn] is None and v2 is None) or (vals[fn] is not None and v2 is not None and
+                                                          (abs(vals[fn] - v2) <= 2 * TOL_C or (vals[fn] != vals[fn] and v2 != v2)))
+                if fn == 'get_gme_2qubit' and gme_tol(T2.concurrence(rho)) > 1e-6:
+                    continue
+                ctx.check(ok, f'{fn}/layout-dependent', f'{fn} gives different values for the same matrix in another memory layout / dtype',
+                          {'layout': tag, 'value': repr(vals[fn]), 'value_plain': repr(v2), 'rho': np.asarray(rho)}, point='relation/layout')
+
+    def history(real, dims=(2, 2)):
+        """work-buffer history: ONE array object is refilled / updated in place between evaluations; every evaluation must refer to the
+        CURRENT content. The monitors do not re-invoke the library during the history (a foreign call would hide a stale memo)."""
+        D = dims[0] * dims[1]
+        fns = list(FUNCS) if dims == (2, 2) else ['get_negativity']
+        buf = np.empty((D, D), dtype=np.float64 if real else np.complex128)
+        bell = np.zeros((D, D))
+        bell[0, 0] = bell[0, -1] = bell[-1, 0] = bell[-1, -1] = 0.5
+        seq = [('strongly entangled', 0.9 * bell + 0.1 * ginibre_state(rng, D, D, real))]
+        seq += [(f'random rank {r}', ginibre_state(rng, D, r, real)) for r in rng.permutation(np.arange(1, D + 1))[:4]]
+        seq += [('maximally mixed', np.eye(D) / D), ('strongly entangled again', 0.8 * bell + 0.2 * ginibre_state(rng, D, 2, real))]
+        flags['no_reinvoke'] = True
+        try:
+            prev = None
+            for step, (desc, state) in enumerate(seq + [('in-place depolarisation of the previous content', None)]):
+                if state is None:
+                    buf *= 0.2
+                    buf += 0.8 * np.eye(D) / D
+                else:
+                    buf[:] = state
+                cur = buf.copy()
+                ctx.set_case({'history': 'work buffer', 'step': step, 'content': desc, 'dims': list(dims), 'dtype': str(buf.dtype)})
+                ctx.case('history', list(dims), cur.astype(np.complex128), step, nontrivial=nontrivial(cur))
+                ctx.workload('realistic')
+                order = [fns[i] for i in rng.permutation(len(fns))][:int(rng.integers(1, len(fns) + 1))]
+                for fn in order:
+                    v = call(fn, buf, dims)
+                    if v is None or v != v:
+                        continue
+                    ref_now = reference(fn, cur, dims)
+                    stale = prev is not None and abs(v - ref_now) > 1e-3 and abs(v - reference(fn, prev, dims)) <= 3e-4
+                    ctx.check(not stale, f'{fn}/stale-after-inplace-update',
+                              f'{fn} returned the value of the PREVIOUS content of an array that was updated in place',
+                              lambda: {'value': v, 'reference_current_content': ref_now, 'reference_previous_content': reference(fn, prev, dims),
+                                       'content': desc, 'current': cur, 'previous': prev}, point='history/work-buffer')
+                prev = cur
+        finally:
+            flags['no_reinvoke'] = False
+
+    def pure_history():
+        for dA, dB in [(2, 2), (2, 3), (3, 2)]:
+            buf = np.empty((dA, dB), dtype=np.complex128)
+            prev = None
+            for step in range(4):
+                if step % 2:
+                    psi = np.outer(rand_pure(rng, dA), rand_pure(rng, dB))
+                else:
+                    psi = rand_pure(rng, dA * dB).reshape(dA, dB)
+                buf[:] = psi
+                ctx.set_case({'history': 'pure-state work buffer', 'step': step, 'dims': [dA, dB]})
+                for fn, f, ref in [('get_concurrence_pure', E.get_concurrence_pure, T2.concurrence_pure), ('get_eof_pure', E.get_eof_pure, T2.eof_pure)]:
+                    out = [None]
+                    with ctx.guard(fn):
+                        out[0] = f(buf)
+                    try:
+                        v = float(out[0])
+                    except Exception:
+                        continue
+                    stale = prev is not None and abs(v - ref(psi)) > 1e-3 and abs(v - ref(prev)) <= 1e-6
+                    ctx.check(not stale, f'{fn}/stale-after-inplace-update', f'{fn} returned the value of the previous content of its buffer',
+                              {'value': v, 'reference': ref(psi), 'psi': psi}, point='history/work-buffer')
+                prev = psi
 
     if name.startswith('measures'):
         part = shard['part']
@@ -557,13 +705,22 @@ def run(ctx, shard):
             # locally rotated Bell states: the concurrence is 1 up to rounding (the hostile point of sqrt(1-C^2))
             ctx.workload('corner', n)
             for it in range(n):
-                measures('locally rotated Bell state', rotate(rng, T2.proj(T2.bell(it % 4))))
+                measures('locally rotated Bell state', rotate(rng, T2.proj(T2.bell(it % 4))), layouts=it % 50 == 0)
         else:
             gen = gen_generic if part == 'generic' else gen_special
+            first = None
             for it in range(n):
                 desc, rho = gen(rng, it)
+                if first is None:
+                    first = (desc, rho.copy())
                 ctx.workload('random' if part == 'generic' else 'corner')
                 measures(desc, rho)
+                if it % 20 == 7:
+                    history(real=bool((it // 20) % 2))
+                if it % 60 == 11:
+                    history(real=False, dims=[(2, 3), (3, 2)][(it // 60) % 2])
+            pure_history()
+            measures(first[0] + ' (first state of the shard again, at the end)', first[1], layouts=False)
             # pure-state functions on (dA, dB) coefficient matrices, negativity beyond two qubits
             for it in range(n // 2):
                 dA, dB = [(2, 2), (2, 3), (3, 2), (3, 3), (2, 4), (4, 3)][it % 6]
@@ -626,7 +783,8 @@ def run(ctx, shard):
             rng.integers(1, 5)  # keep the random stream aligned with earlier runs
             return f'random rank {r}', dims, ginibre_state(rng, 6, r), r
         if k < 4:
-            return f'random rank {k + 1}', (2, 2), ginibre_state(rng, 4, k + 1), k + 1
+            real = (it // 7) % 2 == 1  # every other round: real arithmetic, float64 array handed to set_density_matrix
+            return f'random rank {k + 1}' + (' (real, float64)' if real else ''), (2, 2), ginibre_state(rng, 4, k + 1, real), k + 1
         if k == 4:
             desc, rho = gen_special(rng, int(rng.integers(0, 10**6)))
         else:
@@ -636,8 +794,10 @@ def run(ctx, shard):
         return desc, (2, 2), rho, r
 
     reuse_pool = {}
+    done = []
     for it in range(shard['nstate']):
         desc, dims, rho, rank = model_state(it)
+        done.append((it, desc, dims, rho, rank))
         ent = dims == (2, 2) and T2.concurrence(rho) > 1e-6
         lo = max(2, rank)
         sizes = sorted(set([lo, min(8, lo + 1), int(rng.integers(lo, 9)), 8]))
@@ -660,7 +820,11 @@ def run(ctx, shard):
                     reuse_pool[rkey] = (model, extra_cfg)
                 cfg.update(extra_cfg)
                 ctx.set_case(cfg)
-                model.set_density_matrix(rho)
+                work = np.array(rho, copy=True)
+                model.set_density_matrix(work)
+                if it % 3 == 1:  # history: the caller refills its buffer after handing it over; the model must keep the state it was given
+                    work[:] = np.eye(work.shape[0]) / work.shape[0]
+                    ctx.hit('model/argument-buffer-refilled-after-set')
                 nparam = sum(p.numel() for p in model.parameters())
                 for scale in (0.1, 1.0, 10.0):
                     for rep in range(2 if ctx.tier == 'quick' else 3):
@@ -686,3 +850,23 @@ def run(ctx, shard):
                     if dims == (2, 2):
                         gap = float(res.fun) - T2.closed_form(rho, kind)
                         ctx.extra.setdefault('final_gap_after_lbfgs', {}).setdefault(kind, []).append(round(gap, 12))
+
+    # call order: a few configurations again in the opposite order on fresh model objects ((3,2) before (2,3), rank 4 before rank 1),
+    # and the very first configuration once more at the end of the process
+    nrep = 7 if ctx.tier == 'quick' else 21
+    replay = [done[i] for i in sorted({min(6, len(done) - 1), min(13, len(done) - 1)} | set(range(min(nrep, len(done)))))]
+    for it, desc, dims, rho, rank in list(reversed(replay)) + [done[0]]:
+        n_ens = max(2, rank) + (it % 2)
+        cfg = {'model': kind, 'state': desc, 'dims': list(dims), 'rank': rank, 'ensemble': n_ens, 'pass': 'replay in reversed order'}
+        ctx.set_case(cfg)
+        ctx.workload('random')
+        with ctx.guard(f'model/{kind}'):
+            model, extra_cfg = build(dims, n_ens, rank, it)
+            model.set_density_matrix(rho)
+            nparam = sum(p.numel() for p in model.parameters())
+            for scale in (0.1, 1.0, 10.0):
+                numqi.optimize.set_model_flat_parameter(model, rng.normal(size=nparam) * scale)
+                ctx.case('model-replay', kind, cfg, rho, scale, nontrivial=nontrivial(rho))
+                with torch.no_grad():
+                    model()
+            ctx.hit('model/replayed-in-other-order')
